@@ -91,3 +91,40 @@ func TestGenerateAndCut(t *testing.T) {
 		}
 	}
 }
+
+func TestGenerateGrid(t *testing.T) {
+	aligned := 0
+	for i := 0; i < 1500; i++ {
+		r := gen.New(uint64(i), "g")
+		tr, m := GenerateGrid(r)
+		if err := tr.Validate(m); err != nil {
+			t.Fatal(err)
+		}
+		if n, _ := tr.AlignedPassThrough(); n > 0 {
+			aligned++
+		}
+		in := GridInstance(r, tr)
+		if len(in.Pieces) == 0 || len(in.OuterLast(in.MemberOrder, 0)) != len(in.Pieces) {
+			t.Fatal("instance")
+		}
+	}
+	if aligned < 500 {
+		t.Fatalf("only %d of 1500 grid truths have an aligned pass-through vertex", aligned)
+	}
+	// the hand-made pass-through cases: diagonal vertex, rectilinear step, and a peak (not pass-through)
+	mk := func(outer []Pt) *Truth {
+		return &Truth{Polys: []Poly{
+			{Outer: sq(0, 0, 60), Holes: [][]Pt{{{20, 20}, {30, 40}, {40, 30}}}},
+			{Outer: outer},
+		}}
+	}
+	if n, o := mk([]Pt{{100, 0}, {130, 0}, {140, 30}, {130, 40}, {100, 40}, {90, 20}}).AlignedPassThrough(); n != 2 || !o[0][1] {
+		t.Fatalf("hexagon: %d", n)
+	}
+	if n, _ := mk([]Pt{{100, 0}, {150, 0}, {150, 20}, {160, 20}, {160, 60}, {100, 60}}).AlignedPassThrough(); n != 2 {
+		t.Fatalf("staircase: %d (both ends of the horizontal step)", n)
+	}
+	if n, _ := mk([]Pt{{100, 30}, {130, 20}, {160, 30}}).AlignedPassThrough(); n != 0 {
+		t.Fatalf("extremum vertex is not pass-through: %d", n)
+	}
+}
